@@ -4044,16 +4044,12 @@ async fn run_rtp_direct_loop(
                 return;
             }
             crate::transports::ice::IceTransportState::Closed => {
+                // The ICE transport was stopped (e.g. through the public
+                // `ice_transport().stop()`): run the complete close path so that
+                // tracks, channels, SCTP and DTLS are torn down too, instead of
+                // only reporting `Closed` (after which `close()` is a no-op).
                 if let Some(inner) = inner_weak.upgrade() {
-                    let _ = inner.disconnect_reason.send_if_modified(|cur| {
-                        if cur.is_none() {
-                            *cur = Some(DisconnectReason::IceDisconnected);
-                            true
-                        } else {
-                            false
-                        }
-                    });
-                    let _ = inner.peer_state.send(PeerConnectionState::Closed);
+                    inner.close_with_reason(DisconnectReason::IceDisconnected);
                 }
                 return;
             }
@@ -4201,16 +4197,12 @@ async fn run_ice_dtls_loop(
                 return;
             }
             crate::transports::ice::IceTransportState::Closed => {
+                // The ICE transport was stopped (e.g. through the public
+                // `ice_transport().stop()`): run the complete close path so that
+                // tracks, channels, SCTP and DTLS are torn down too, instead of
+                // only reporting `Closed` (after which `close()` is a no-op).
                 if let Some(inner) = inner_weak.upgrade() {
-                    let _ = inner.disconnect_reason.send_if_modified(|cur| {
-                        if cur.is_none() {
-                            *cur = Some(DisconnectReason::IceDisconnected);
-                            true
-                        } else {
-                            false
-                        }
-                    });
-                    let _ = inner.peer_state.send(PeerConnectionState::Closed);
+                    inner.close_with_reason(DisconnectReason::IceDisconnected);
                 }
                 return;
             }
